@@ -15,7 +15,9 @@ Record out_probe := {
   o_exists : bool;          (* output_path.exists() *)
   o_is_dir : bool;          (* output_path.is_dir() *)
   o_parent_exists : bool;   (* output_path.parent.exists() *)
-  o_parent_is_dir : bool    (* output_path.parent.is_dir() *)
+  o_parent_is_dir : bool;   (* output_path.parent.is_dir() *)
+  o_gen_exists : bool       (* the GENERATED name (cond-archive+<time to the second>.tar.gz, in cond-out or in the given
+                               directory) already exists: an archive made within the same second (tested since /repo D43) *)
 }.
 
 Inductive out_decision :=
@@ -27,8 +29,8 @@ Inductive out_decision :=
 
 (* archive.handle_output_path *)
 Definition handle_output_path (p : out_probe) : out_decision :=
-  if negb (o_given p) then OGenInOut
-  else if o_exists p then (if o_is_dir p then OGenInDir else OErrExists)
+  if negb (o_given p) then (if o_gen_exists p then OErrExists else OGenInOut)
+  else if o_exists p then (if o_is_dir p then (if o_gen_exists p then OErrExists else OGenInDir) else OErrExists)
   else if o_parent_exists p && o_parent_is_dir p then OGiven
   else OErrNoPath.
 
@@ -71,3 +73,10 @@ Definition archive_main (p : out_probe) (fail_at : option nat) : list N :=
 Definition touches_files (c : N) : bool := (c =? 4) || (c =? 5) || (c =? 6) || (c =? 8) || (c =? 9) || (c =? 11).
 Definition writes_output (c : N) : bool := c =? 9.
 Definition removes_output (c : N) : bool := c =? 11.
+
+(* whether the file the command is going to write -- the generated name, or the -o argument itself -- existed when
+   handle_output_path looked *)
+Definition target_existed (p : out_probe) : bool :=
+  if negb (o_given p) then o_gen_exists p
+  else if o_exists p then (if o_is_dir p then o_gen_exists p else true)
+  else false.
